@@ -78,7 +78,7 @@ func c02Count(maxSteps int) int {
 
 func c02(r *mon.Run) {
 	maxSteps := tierPick(r, 3, 4)
-	r.Rule = "exhaustive: every chain of 1..K steps (K=3 quick, 4 thorough) over 17 steps {.a .\"a\" .b [0] [-1] [*] [] [?a] [?@] .* [1:] [::-1] .[a,b] .{x:a} .type(@) .to_string(@) .not_null(a,'z')} x heads {a, @, bare} x terminators {end, | [0], (…).a, (…)[0], || b, == b, evaluated twice [c, c]} x a 35-document universe (empty / null-containing / heterogeneous / nested arrays and objects); " +
+	r.Rule = "exhaustive: every chain of 1..K steps (K=3 quick, 4 thorough) over 17 steps {.a .\"a\" .b [0] [-1] [*] [] [?a] [?@] .* [1:] [::-1] .[a,b] .{x:a} .type(@) .to_string(@) .not_null(a,'z')} x heads {a, @, bare} x terminators {end, | [0], (…).a, (…)[0], || b, == b, evaluated twice [c, c]} x a 38-document universe (incl. strings holding JSON text at the root) (empty / null-containing / heterogeneous / nested arrays and objects); " +
 		"plus every chain of 1-2 steps over arrays of 15...1025 elements (thorough to 65536) in four element patterns; plus seeded random nested projections with filters and slices on random typed documents; plus every chain of <= 4 navigational steps on 6 documents given as Go-typed slices ([][][]float64, [][]string, []map…; the reflection twins of the projection loops) against the model on the generic form. node-kind pairs: 49 representatives of every node kind in each of the 38 single-hole grammar contexts and in every context of every context, on 3 documents (the trees this property owns: a projection, no function or operator). Oracle: ref.RefSet with member-order nondeterminism as a result set. Non-trivial = distinct (expression, document) with a projection whose expected result is a non-empty array, or null because the left side has the wrong type (counted separately)."
 	r.Exhaustive = true
 	r.Floor = 5000
